@@ -5,6 +5,7 @@ import (
 	"fmt"
 	"os"
 	"path/filepath"
+	"runtime/debug"
 	"sort"
 	"strconv"
 	"strings"
@@ -215,6 +216,9 @@ func RunProperty(id, tier string) int {
 			defer func() {
 				if rec := recover(); rec != nil {
 					r.err = fmt.Errorf("engine failure in %s: %v", us.Func, rec)
+					if os.Getenv("B6VC_DEBUG") != "" {
+						fmt.Fprintf(os.Stderr, "%v\n%s\n", rec, debug.Stack())
+					}
 				}
 			}()
 			switch us.Kind {
